@@ -112,14 +112,16 @@ Proof. exact v2u_code_ok. Qed.
 Print Assumptions C16_codes_14bit.
 
 (* (4) limits: whatever the compiler emits, every segment has >= 192 points, a multiple of 16, and the reported
-   length; in ADVANCED mode every sequencer table has between min_seq_len and max_seq_len entries *)
+   length; every sequencer table has at most max_seq_len entries (both modes; SINGLE mode since the repair of
+   setup_single_sequence_mode); in ADVANCED mode every sequencer table also has at least min_seq_len entries *)
 Theorem C16_limits : forall c tbl prog o, compile c tbl prog = Ok o ->
-  segments_ok o = true /\ (o_advanced o = true -> tables_ok c o = true).
+  segments_ok o = true /\ (o_advanced o = true -> tables_ok c o = true) /\ tables_max_ok c o = true.
 Proof. exact compile_limits. Qed.
 Print Assumptions C16_limits.
 
-(* ... and in SINGLE mode the table length is not checked at all (known finding single_mode_table_length_unchecked);
-   guard of C16_limits = `o_advanced o = true` *)
+(* ... and in SINGLE mode the table length is not compared with min_seq_len (known finding
+   single_mode_table_length_unchecked, lower bound: short tables are intended, the driver pads them with idle
+   entries); guard of the lower bound in C16_limits = `o_advanced o = true` *)
 Theorem C16_limits_single_mode_refuted :
   exists c tbl prog o, compile c tbl prog = Ok o /\ o_advanced o = false /\ tables_ok c o = false.
 Proof. exists (ex_cfg 3 4), ex_tbl, ex_single. exact single_mode_tables_unchecked. Qed.
